@@ -290,6 +290,36 @@ class ColAttrs:
                 "exhaustive": True, "parts": res["parts"], "no_verdict": t["no_verdict"], "spec_properties": ["Independence"]}
 
 
+class StylesFam:
+    PROPS = ["C30"]
+    ASSUMPTIONS = ["styles from an 18-style pool in which every style has neighbours differing in exactly one attribute (incl. a custom format equal to built-in 14, 'General' vs 'general', Some(Alignment::default()) vs None, quote prefix)",
+                   "targets: two cells, a row, a column; probes: an untouched cell of the styled row, of the styled column, and their crossing (row over column; a row given the default style counts as unstyled)",
+                   "read back through get_style_for_cell / get_row_style (effective) / get_column_style, directly and after to_bytes/from_bytes at the last step"]
+
+    @staticmethod
+    def run(d, tier, seed):
+        res = {"violations": {"C30": []}}
+        steps = 2 if tier == "quick" else 3
+        cfg = open(os.path.join(SPEC, "Styles.cfg")).read().replace("MaxSteps = 2", f"MaxSteps = {steps}")
+        out, st, dt = run_tlc("Styles.tla", cfg, d, "styles", workers=8)
+        path = os.path.join(d, "beh.ndjson")
+        n = cases_from(out, path, tag="BEHAVIOUR")
+        rr, dt2 = icverif(["styles", "--in", path, "--out", os.path.join(d, "out")], timeout=3400)
+        os.remove(path)
+        res["tlc"] = {"states": st["distinct"], "transitions": st["generated"], "behaviours": n}
+        res["run"] = rr
+        collect(res, "C30", os.path.join(d, "out", "mismatches.ndjson"))
+        return res
+
+    @staticmethod
+    def evidence_for(prop, res):
+        r = res["run"]
+        return {"states": res["tlc"]["states"], "transitions": res["tlc"]["transitions"], "traces_validated_against_impl": r["cases"],
+                "samples": r["samples"] or [{"note": "none"}], "evaluations": r["checks"], "distinct_nontrivial": r["distinct_nontrivial"],
+                "rule": "every sequence of assignments of the stated length (target x style) of Styles.tla replayed; 7 reads compared after every step; distinct_nontrivial = distinct (target, style) assignments executed.",
+                "exhaustive": True, "spec_properties": ["ReadBack", "NoAliasing"]}
+
+
 def replay_case(prop, path):
     with open(path) as f:
         payload = json.load(f)
@@ -308,4 +338,4 @@ def _wrap(cls, name):
     return (name, M)
 
 
-TABLE = {"C21": _wrap(Calendar, "calendar"), "C22": _wrap(Grid, "grid"), "C23": _wrap(Lang, "lang"), "C34": _wrap(F4, "f4"), "C19": _wrap(NumberInput, "numinput"), "C20": _wrap(NumberFormat, "numformat"), "C09": _wrap(Formula, "formula"), "C29": _wrap(ColAttrs, "colattrs")}
+TABLE = {"C21": _wrap(Calendar, "calendar"), "C22": _wrap(Grid, "grid"), "C23": _wrap(Lang, "lang"), "C34": _wrap(F4, "f4"), "C19": _wrap(NumberInput, "numinput"), "C20": _wrap(NumberFormat, "numformat"), "C09": _wrap(Formula, "formula"), "C29": _wrap(ColAttrs, "colattrs"), "C30": _wrap(StylesFam, "styles")}
